@@ -250,6 +250,9 @@ class Check(BaseCheck):
                 yield dict(kind="rt4", v=c["v"], t=c["t"], name=c["name"])
         for d in ev_cases(rng, 6 if self.quick else 40):
             yield dict(kind="ev", d=d)
+        # many generic float64 coordinates: rounding to single precision must happen once (at reading), never twice
+        bv, bt = gen.icosphere(2)
+        yield dict(kind="rt3", v=bv * rng.uniform(0.3, 90.0, 3) + rng.normal(size=3), t=bt, name="icosphere2-generic")
         yield dict(kind="foreign")
         yield dict(kind="fs")
 
